@@ -374,6 +374,10 @@ func TestPropSumtree(t *testing.T) {
 			"increase": func(rt *rapid.T) {
 				handle()
 				k, v := genKey(rt, md, "k"), genAmt(rt, "v")
+				// signed amounts: the operations are defined as leaf += amt / leaf -= amt for an Int of either sign
+				if rapid.IntRange(0, 2).Draw(rt, "negAmt") == 0 {
+					v = new(big.Int).Neg(v)
+				}
 				rt.Logf("OP inc %q %s", k, v)
 				tree.Increase(k, toInt(v))
 				old := md.m[string(k)]
@@ -386,6 +390,10 @@ func TestPropSumtree(t *testing.T) {
 			"decrease": func(rt *rapid.T) {
 				handle()
 				k, v := genKey(rt, md, "k"), genAmt(rt, "v")
+				// signed amounts: the operations are defined as leaf += amt / leaf -= amt for an Int of either sign
+				if rapid.IntRange(0, 2).Draw(rt, "negAmt") == 0 {
+					v = new(big.Int).Neg(v)
+				}
 				rt.Logf("OP dec %q %s", k, v)
 				tree.Decrease(k, toInt(v))
 				old := md.m[string(k)]
